@@ -1392,7 +1392,11 @@ minimum = _binary(lambda a, b: _minimum_cells([a, b]))
 
 
 def deg2rad(x, out=None, **kw):
-    r = x * (pi_value() / 180.0) if True else None
+    hook = _TRIG.get("deg2rad")
+    if hook is not None:
+        r = SArr(_map(hook, asarray(x).a), rnp.dtype("f8")) if _py_isinstance(x, (SArr, list, tuple)) else hook(x)
+    else:
+        r = x * (pi_value() / 180.0)
     if out is not None:
         out[...] = r
         return out
@@ -1400,7 +1404,11 @@ def deg2rad(x, out=None, **kw):
 
 
 def rad2deg(x, out=None, **kw):
-    r = x * (180.0 / pi_value())
+    hook = _TRIG.get("rad2deg")
+    if hook is not None:
+        r = SArr(_map(hook, asarray(x).a), rnp.dtype("f8")) if _py_isinstance(x, (SArr, list, tuple)) else hook(x)
+    else:
+        r = x * (180.0 / pi_value())
     if out is not None:
         out[...] = r
         return out
@@ -1647,11 +1655,24 @@ def outer(x, y):
     return SArr(_obj_array([[p * q for q in ya.a.tolist()] for p in xa.a.tolist()]), dt) if xa.size and ya.size else zeros((xa.size, ya.size), dt)
 
 
-def cross(x, y):
+def cross(x, y, axisa=-1, axisb=-1, axisc=-1, axis=None):
     xa, ya = asarray(x), asarray(y)
-    if xa.shape != ya.shape or xa.shape[-1] != 3:
+    if axis is not None:
+        axisa = axisb = axisc = axis
+    if xa.ndim == 0 or ya.ndim == 0:
+        raise ValueError("At least one array has zero dimension")
+    X, Y = rnp.moveaxis(xa.a, axisa, -1), rnp.moveaxis(ya.a, axisb, -1)
+    if X.shape[-1] not in (2, 3) or Y.shape[-1] not in (2, 3):
+        raise ValueError("incompatible dimensions for cross product\n(dimension must be 2 or 3)")
+    if X.shape != Y.shape or X.shape[-1] != 3:
         raise Unsupported("cross for these shapes")
-    X, Y = xa.a, ya.a
+    r = _cross_last(X, Y, rnp.promote_types(xa.dt, ya.dt))
+    if axisc != -1 and r.ndim > 1:
+        r = SArr(rnp.moveaxis(r.a, -1, axisc), r.dt)
+    return r
+
+
+def _cross_last(X, Y, dt):
     out = rnp.empty(X.shape, dtype=object)
     for ix in rnp.ndindex(*X.shape[:-1]):
         a0, a1, a2 = X[ix]
@@ -1659,7 +1680,7 @@ def cross(x, y):
         out[ix + (0,)] = a1 * b2 - a2 * b1
         out[ix + (1,)] = a2 * b0 - a0 * b2
         out[ix + (2,)] = a0 * b1 - a1 * b0
-    return SArr(out, rnp.promote_types(xa.dt, ya.dt))
+    return SArr(out, dt)
 
 
 def convolve(x, k, mode="full"):
